@@ -4,8 +4,8 @@
    its slice of versions, imports maps a version key to its slice of requirements.  A Go
    map is an association list read front to back and written by consing, so that
    [lookup (update m k v) k' = if k = k' then Some v else lookup m k'] holds by computation.
-   MatchingVersions hands the client's own slice to MatchRequirement, which for npm sorts it
-   in place: the call therefore returns a new store.
+   The four lookups leave the store unchanged (matchNPMRequirement sorts a copy of the slice
+   it is handed), so only AddVersion writes.
 
    [variant] selects the replace branch of AddVersion:
      Current        versions[i] = w   the code in the tree (F-C14-1: stores the old value back)
@@ -107,13 +107,10 @@ Section WithOracle.
     | None => Err ENotFound
     end.
 
-  (* returns the store after the call: for npm the package's slice has been sorted in place *)
-  Definition matching_versions (c : client) (k : vkey) : client * res (list version) :=
+  Definition matching_versions (c : client) (k : vkey) : res (list version) :=
     match pkg_list c (vk_pkg k) with
-    | None => (c, Err ENotFound)
-    | Some vs =>
-        let '(vs', ms) := match_requirement O k vs in
-        (set_pkg c (vk_pkg k) vs', Ok ms)
+    | None => Err ENotFound
+    | Some vs => Ok (match_requirement O k vs)
     end.
 
   Definition step (c : client) (o : hop) : client * option obs :=
@@ -122,7 +119,7 @@ Section WithOracle.
     | HVersion k => (c, Some (OVersion (version_of c k)))
     | HVersions p => (c, Some (OVersions (versions_of c p)))
     | HRequirements k => (c, Some (OReqs (requirements_of c k)))
-    | HMatching k => let '(c', r) := matching_versions c k in (c', Some (OVersions r))
+    | HMatching k => (c, Some (OVersions (matching_versions c k)))
     end.
 
   Definition run_from (c : client) (ops : list hop) : client := fold_left (fun c o => fst (step c o)) ops c.
